@@ -69,7 +69,8 @@ var infoCodes = []int{100, 102, 103, 103, 199}
 // names the handler may set; all are non-framing. Content-Type is only ever Set (single value).
 var hdrNames = []string{"X-A", "X-A", "x-b", "X-B", "Set-Cookie", "Cache-Control", "Vary", "X-Empty", "Location", "Etag"}
 var hdrValues = []string{"1", "two", "a=b", "c=d; Path=/", "no-cache", "text/html", "  padded  ", "v3", "Accept-Encoding", "\"tag\""}
-var ctValues = []string{"text/plain; charset=utf-8", "application/json", "text/html", "image/png"}
+// (none of these can be the result of content sniffing, so a sniffed type is never mistaken for a handler-set one)
+var ctValues = []string{"text/plain; charset=iso-8859-1", "application/json", "text/csv", "application/x-c36; v=1"}
 
 // compared response header names (canonical). Framing and server-default fields
 // (Content-Length, Transfer-Encoding, Connection, Date, Server) are never compared.
@@ -229,9 +230,14 @@ type final struct {
 	Raw     string              `json:"raw,omitempty"`
 }
 
-// fetch sends one request and reads the connection to EOF; then parses: interim 1xx
-// responses are skipped, the first non-1xx response is the final one.
-func fetch(dial func() (net.Conn, error), method, progID string) final {
+// fetch sends one request and reads responses with http.ReadResponse: interim 1xx
+// responses are skipped, the first non-1xx response is the final one; its body is read
+// as framed. The client then closes the connection (neither server is relied upon to
+// close: net/http cannot abort its background read on a fasthttputil pipe).
+// Both servers get the same request bytes (with `Connection: close`, so that a server
+// which never sends a final response ends the exchange by closing instead of idling).
+// drain: also read to EOF afterwards and count stray bytes (fasthttp side only).
+func fetch(dial func() (net.Conn, error), method, progID string, drain bool) final {
 	c, err := dial()
 	if err != nil {
 		return final{Err: "dial: " + err.Error()}
@@ -241,19 +247,15 @@ func fetch(dial func() (net.Conn, error), method, progID string) final {
 	if _, err := c.Write([]byte(req)); err != nil {
 		return final{Err: "write: " + err.Error()}
 	}
-	raw, _ := io.ReadAll(c)
-	return parseFinal(raw, method)
-}
-
-func parseFinal(raw []byte, method string) final {
 	var out final
-	out.Raw = mon.Short(raw, 300)
-	rd := bytes.NewReader(raw)
-	br := bufio.NewReader(rd)
+	var rawBuf bytes.Buffer
+	br := bufio.NewReader(io.TeeReader(c, &rawBuf))
+	defer func() { out.Raw = mon.Short(rawBuf.Bytes(), 300) }()
 	for {
 		resp, err := http.ReadResponse(br, &http.Request{Method: method})
 		if err != nil {
 			out.Err = "no final response: " + err.Error()
+			out.Raw = mon.Short(rawBuf.Bytes(), 300)
 			return out
 		}
 		if resp.StatusCode >= 100 && resp.StatusCode <= 199 && resp.StatusCode != 101 {
@@ -270,7 +272,11 @@ func parseFinal(raw []byte, method string) final {
 		if rerr != nil {
 			out.Err = "body: " + rerr.Error()
 		}
-		out.Extra = br.Buffered() + rd.Len()
+		if drain {
+			rest, _ := io.ReadAll(br)
+			out.Extra = len(rest)
+		}
+		out.Raw = mon.Short(rawBuf.Bytes(), 300)
 		return out
 	}
 }
@@ -308,9 +314,9 @@ func TestC36(t *testing.T) {
 		"(b) request = method x target (origin, query, escapes, absolute-URI, *) x HTTP/1.0|1.1 x Host forms x 0-6 headers (mixed-case names, repeated, padded/empty values, cookies) x body (none, Content-Length, chunked); ConvertRequest vs http.ReadRequest. " +
 		"distinct = sequence of step kinds (+method) / request feature vector; non-trivial = program has >= 2 steps with a commit, or request has a body, a repeated header or a non-trivial target")
 	r.Assume("net/http (server, ReadRequest, ReadResponse) of the Go toolchain in use is the reference")
-	r.Assume("compared response fields are the handler-set, non-framing names " + strings.Join(cmpNames, ", ") + "; Content-Type is compared only when the handler set it before the commit point (sniffing differs by design), and must not leak a value set after the commit point; Content-Length, Transfer-Encoding, Connection, Date, Server are never compared")
+	r.Assume("compared response fields are the handler-set, non-framing names " + strings.Join(cmpNames, ", ") + "; Content-Type is compared only when the handler set it before the commit point (sniffing differs by design) and the status is not 304 (net/http drops it there), and must not leak a value set after the commit point; Content-Length, Transfer-Encoding, Connection, Date, Server are never compared")
 	r.Assume("handlers do not set framing fields, CR/LF in values, an empty Content-Type, or trailers; they do not hijack or panic")
-	r.Assume("ConvertRequest: requests that either parser rejects are skipped and counted; Host (promoted to Request.Host by net/http) and Transfer-Encoding are excluded from the header multiset; repeated fasthttp single-valued request headers (Host, Content-Type, User-Agent, Content-Length) are not generated")
+	r.Assume("ConvertRequest: requests that either parser rejects are skipped and counted; Host (promoted to Request.Host by net/http) and Transfer-Encoding are excluded from the header multiset; Content-Length and Connection (framing / hop-by-hop; fasthttp synthesises `Content-Length: 0` and, for HTTP/1.0, `Connection: close`) are counted but not judged; repeated fasthttp single-valued request headers (Host, Content-Type, User-Agent, Content-Length, Cookie) and malformed cookies are not generated")
 
 	runPrograms(r)
 	runRequests(r)
@@ -334,6 +340,7 @@ func runPrograms(r *mon.Run) {
 	}()
 
 	n := r.N(3000, 200_000)
+	var stuck atomic.Int32
 	mon.Parallel(n, 0, func(i int) {
 		if !r.Want(i) {
 			return
@@ -347,13 +354,18 @@ func runPrograms(r *mon.Run) {
 		id := strconv.Itoa(i)
 		tbl.put(id, p)
 		defer tbl.del(id)
+		if stuck.Load() >= 3 {
+			return // the run is already inconclusive; do not pile up watchdogs
+		}
 		var got, want final
-		ok := mon.Watchdog(5*time.Minute, func() {
-			got = fetch(lnF.Dial, method, id)
-			want = fetch(lnH.Dial, method, id)
+		ok := mon.Watchdog(2*time.Minute, func() {
+			g := fetch(lnF.Dial, method, id, true)
+			w := fetch(lnH.Dial, method, id, false)
+			got, want = g, w
 		})
 		if !ok {
-			r.Inconclusive(fmt.Sprintf("program case %d did not finish within the watchdog: %s", i, progString(p)))
+			stuck.Add(1)
+			r.Inconclusive(fmt.Sprintf("program case %d did not finish within the watchdog: %s %s", i, method, progString(p)))
 			return
 		}
 		f := analyse(p)
@@ -426,6 +438,9 @@ func comparePrograms(r *mon.Run, i int, p []step, method string, f features, got
 	// Content-Type: equality when the handler chose it before the commit; never a post-commit value
 	gct, wct := multiset(got.Header, "Content-Type"), multiset(want.Header, "Content-Type")
 	switch {
+	case want.Status == 304 || got.Status == 304:
+		// net/http suppresses Content-Type on 304 by itself (server policy, not handler-set)
+		r.Event("skipped_content_type_on_304", 1)
 	case f.TouchedCTBefore && !f.MutatedAfter["Content-Type"]:
 		if !eqStrings(gct, wct) {
 			r.Violation(i, "unclassified-header-content-type", desc(fmt.Sprintf("handler-set Content-Type differs: adaptor %q, net/http %q", gct, wct)), payload)
@@ -471,8 +486,9 @@ func comparePrograms(r *mon.Run, i int, p []step, method string, f features, got
 	} else {
 		r.Event("body_equal", 1)
 	}
-	if got.Extra != want.Extra {
-		r.Violation(i, "unclassified-extra-bytes-after-response", desc(fmt.Sprintf("bytes after the final response: adaptor %d, net/http %d", got.Extra, want.Extra)), payload)
+	if got.Extra != 0 {
+		// fasthttp core behaviour (HEAD + streamed body of unknown size writes a stray CRLF): property C03, not judged here
+		r.Event("stray_bytes_after_final_response_not_judged", 1)
 	}
 }
 
